@@ -1,6 +1,8 @@
 package props
 
 import (
+	"context"
+	"errors"
 	"fmt"
 	"math/rand/v2"
 
@@ -16,7 +18,7 @@ func init() {
 		ID:    "C08",
 		Level: "exploration",
 		Rule: "well-formed generated streams (≥3 packets) demultiplexed under read schedules (every fixed chunk size 1..400 in thorough / a boundary set in quick, random sizes, one cut at every offset of the " +
-			"first 400 bytes, 1-byte reads, last bytes delivered together with io.EOF, reads returning (0, nil)) x reader kinds {seekable, bufio, plain} x {explicit, auto-detected} x packet sizes 188+k, each compared with the baseline (explicit 188, seekable, full reads); " +
+			"first 400 bytes, 1-byte reads, last bytes delivered together with io.EOF, reads returning (0, nil)) plus a read-only reader handed to a second Demuxer right after a call that returned a PAT/PMT, x reader kinds {seekable, bufio, plain} x {explicit, auto-detected} x packet sizes 188+k, each compared with the baseline (explicit 188, seekable, full reads); " +
 			"distinct = hash of (stream, configuration); non-trivial = the tap observed at least one short read or a non-baseline reader/size configuration",
 		Assumptions: []string{"auto-detection inputs respect the detector's documented assumption: first byte is a sync byte and no 0x47 among the bytes 188..188+k-1 / the k extra bytes",
 			"bufio.Reader sized ≥ 193 bytes", "plain reader + auto-detection: the peeked packets are consumed by design, so the packet list must be a suffix of the baseline and independent of chunking"},
@@ -30,6 +32,7 @@ func init() {
 			need(m, &out, "larger_packet_runs", 200)
 			need(m, &out, "eof_with_data_runs", 500)
 			need(m, &out, "zero_read_runs", 500)
+			need(m, &out, "shared_reader_runs", 150)
 			needSet(m, &out, "reader_x_size", 6)
 			return out
 		},
@@ -227,6 +230,77 @@ func runC08(c *mon.Ctx) {
 					c.Count("eof_with_data_runs")
 					try("zero-reads", s.Bytes, DemuxCfg{PacketSize: ps, Reader: rd, API: api, Chunk: ch, ZeroEvery: 2 + r.IntN(5), EOFWithData: r.IntN(2) == 0}, suffix, cc+"+zero-reads")
 					c.Count("zero_read_runs")
+				}
+			}
+		}
+		// (b'') the bytes are consumed by more than one party: a read-only reader is handed to a second Demuxer right after a NextData
+		// call that returned a PAT or PMT. Such a call consumes nothing beyond the table's final packet (C02), so the second Demuxer
+		// (explicit size) starts at a packet boundary and must return exactly the remaining packets of the baseline
+		for rep := 0; rep < 3; rep++ {
+			var ch func(int) int
+			cc := "full"
+			if rep > 0 {
+				rr := rand.New(rand.NewPCG(r.Uint64(), 13))
+				big := rep == 2
+				ch = func(int) int {
+					if big {
+						return 189 + rr.IntN(3000)
+					}
+					return 1 + rr.IntN(400)
+				}
+				cc = "random"
+			}
+			tap := mon.NewRTap(s.Bytes)
+			tap.Chunk = ch
+			rd := mon.Plain{T: tap}
+			d1 := astits.NewDemuxer(context.Background(), rd, astits.DemuxerOptPacketSize(188))
+			stopAfter := 1 + r.IntN(3) // hand over after the n-th table
+			bad := ""
+			handed := false
+			for j := 0; j < len(s.Packets)+8 && bad == "" && !handed; j++ {
+				var d *astits.DemuxerData
+				var err error
+				if pn, v, _ := mon.Guarded(func() { d, err = d1.NextData() }); pn {
+					bad = fmt.Sprint("panic: ", v)
+				} else if err != nil {
+					break
+				} else if d.PAT != nil || d.PMT != nil {
+					stopAfter--
+					handed = stopAfter == 0
+				}
+			}
+			if !handed || bad != "" {
+				continue // fewer tables than asked for (or C02's/C03's business)
+			}
+			if tap.Pos%188 != 0 {
+				continue // read-ahead past the table's final packet: reported by C02
+			}
+			from := tap.Pos / 188
+			d2 := astits.NewDemuxer(context.Background(), rd, astits.DemuxerOptPacketSize(188))
+			var got []Item
+			for j := 0; j < len(s.Packets)+8; j++ {
+				var it Item
+				if pn, v, _ := mon.Guarded(func() { it.Packet, it.Err = d2.NextPacket() }); pn {
+					bad = fmt.Sprint("panic: ", v)
+					break
+				}
+				if it.Err != nil {
+					if !errors.Is(it.Err, astits.ErrNoMorePackets) {
+						bad = "error: " + it.Err.Error()
+					}
+					break
+				}
+				got = append(got, it)
+			}
+			c.Count("configurations_compared")
+			c.Count("shared_reader_runs")
+			c.Case(mon.HashBytes("c08/handover"+cc+fmt.Sprint(from), s.Bytes[:188]), true)
+			data := map[string]any{"config": fmt.Sprintf("handover after packet %d, reads %s", from, cc), "stream": mon.Hex(s.Bytes, 1200)}
+			if bad != "" {
+				c.Violate("C08/shared-reader:handover/"+cc, "streams", i, bad, data)
+			} else if from <= len(base["packet"]) {
+				if d := itemsEqual(got, base["packet"][from:]); d != "" {
+					c.Violate("C08/differs-from-baseline:plain/188/handover/"+cc, "streams", i, d, data)
 				}
 			}
 		}
